@@ -161,6 +161,18 @@ func frontEnds() []frontEnd {
 	}
 }
 
+// countValuer is a slog attribute value whose resolution is counted like a field marshaler call.
+type countValuer struct{ o countObj }
+
+func (v countValuer) LogValue() slog.Value { *v.o.n++; return slog.IntValue(1) }
+
+func slogHandle(core zapcore.Core, l zapcore.Level, msg string, o countObj) {
+	sl := map[zapcore.Level]slog.Level{zapcore.DebugLevel: slog.LevelDebug, zapcore.InfoLevel: slog.LevelInfo + 1, zapcore.WarnLevel: slog.LevelWarn, zapcore.ErrorLevel: slog.LevelError + 3}[l]
+	rec := slog.NewRecord(time.Unix(1, 0), sl, msg, 0)
+	rec.AddAttrs(slog.Any("o", countValuer{o}), slog.Group("g", slog.Any("v", countValuer{o})))
+	_ = zapslog.NewHandler(core).Handle(context.Background(), rec)
+}
+
 type snapshot struct {
 	act   []int
 	hooks []int
@@ -392,6 +404,26 @@ func Run(r *ev.Run) {
 						// marshaler calls are not judged here: a repeat may be refused by a sampler after the level pre-check
 						if m := judgeCall(env, root, l, msg, before, 0); m != "" {
 							fail(fmt.Sprintf("level %d via %s (%s), same message repeated: %s", lv, fe.name, tag, m))
+							return
+						}
+					}
+					// a record handed straight to the slog handler's Handle, as a forwarding slog middleware
+					// whose own Enabled says yes does: attributes of a record no core enables are not
+					// resolved or converted (round 8)
+					if lv >= -1 && lv <= 2 && (i+lv+k)%3 == 0 {
+						msg2 := msg + "-slog-handle"
+						for _, lf := range env.Leaves {
+							lf.Reset()
+						}
+						before = snap(env)
+						cnt = 0
+						if p := ev.Guard(func() { slogHandle(core, l, msg2, countObj{&cnt}) }); p != "" {
+							fail(fmt.Sprintf("slog Handler.Handle at level %d panicked: %s", lv, p))
+							return
+						}
+						r.Count("entries_judged_via_direct_slog_Handle", 1)
+						if m := judgeCall(env, root, l, msg2, before, cnt); m != "" {
+							fail(fmt.Sprintf("level %d via slog Handler.Handle called directly (%s): %s", lv, tag, m))
 							return
 						}
 					}
